@@ -23,6 +23,16 @@ MAX_OBS_PER_TLC = 120
 PY_WORKERS = int(os.environ.get('VERIF_PY_WORKERS', '0') or 0) or max(2, min(12, (os.cpu_count() or 4) - 2))
 
 
+def tlc_jobs(jobs: Dict[str, Any]) -> Dict[str, Any]:
+  """Runs independent TLC jobs (name -> zero-argument callable) concurrently; returns name -> result.
+
+  The JVM start-up and the exports are I/O and single-thread bound, so the model check, the design searches and
+  the exports of one property overlap instead of queueing.  Exceptions propagate (first one wins)."""
+  with concurrent.futures.ThreadPoolExecutor(max_workers=len(jobs)) as ex:
+    futs = {k: ex.submit(f) for k, f in jobs.items()}
+    return {k: f.result() for k, f in futs.items()}
+
+
 class phase:
   """with phase(chk, 'name'): ...  -> chk.notes['phase_s'][name] = seconds (measured)."""
 
